@@ -1,0 +1,13 @@
+//go:build verif
+
+package safe
+
+// VerifPanicInfo reports whether err is the error value NewPanicErr builds from a
+// recovered panic, and the panic value it carries (verification hook, property C13).
+func VerifPanicInfo(err error) (info any, ok bool) {
+	p, ok := err.(*panicErr)
+	if !ok {
+		return nil, false
+	}
+	return p.info, true
+}
